@@ -27,11 +27,21 @@ try:
                 target = 'src/' + cand
         if len(sys.argv) and os.environ.get('DEMO_TARGET'):
             target = os.environ['DEMO_TARGET']
-        sh('cat %s >> %s' % (demo, target), cwd=WT)
+        def wire():
+            mode = os.environ.get('DEMO_MODE', 'append')
+            if mode == 'append':
+                sh('cat %s >> %s' % (demo, target), cwd=WT)
+            elif mode == 'wire':       # demo module under demo/, wired in by a patch to src/main.rs
+                sh('mkdir -p demo && cp %s demo/' % demo, cwd=WT)
+                rc_, out_ = sh('git apply %s' % os.environ['DEMO_WIRE'], cwd=WT); assert rc_ == 0, out_
+            elif mode == 'modfile':    # demo copied to src/<name>.rs and declared in main.rs
+                name = os.environ['DEMO_MOD']
+                sh('cp %s src/%s.rs && echo "#[cfg(test)] mod %s;" >> src/main.rs' % (demo, name, name), cwd=WT)
+        wire()
         rc, out = sh('cargo test --offline %s 2>&1 | grep -E "^test result|panicked|error(\\[|:)" | head -8' % filt, cwd=WT)
         demo_with = out.strip(); print('demo with change:', demo_with)
-        sh('git checkout -- src', cwd=WT)
-        sh('cat %s >> %s' % (demo, target), cwd=WT)
+        sh('git checkout -- src && git clean -fdq src demo', cwd=WT)
+        wire()
         rc, out = sh('cargo test --offline %s 2>&1 | grep -E "^test result|panicked|error(\\[|:)" | head -8' % filt, cwd=WT)
         demo_without = out.strip(); print('demo without change:', demo_without)
         meta['demo_target'] = target
